@@ -68,3 +68,46 @@ VARIANTS = [
       find='\tif sigBlobDesc.Size > maxBlobSizeLimit {\n\t\treturn nil, ocispec.Descriptor{}, fmt.Errorf("signature blob too large: %d bytes", sigBlobDesc.Size)\n\t}',
       replace='\tif !(sigBlobDesc.Size <= maxBlobSizeLimit) {\n\t\treturn nil, ocispec.Descriptor{}, fmt.Errorf("signature blob too large: %d bytes", sigBlobDesc.Size)\n\t}'),
 ]
+
+# index proofs by value (bounds.go): the same loop / search spelled differently, and each spelling with the bound broken
+LOOP_OLD = '\t\tfor _, reservedPrefix := range reservedAnnotationPrefixes {\n\t\t\tif strings.HasPrefix(k, reservedPrefix) {\n\t\t\t\treturn desc, fmt.Errorf("error adding user metadata: metadata key %v has reserved prefix %v", k, reservedPrefix)\n\t\t\t}\n\t\t}\n'
+def idx_loop(cond):
+    return '\t\tfor i := 0; %s; i++ {\n\t\t\treservedPrefix := reservedAnnotationPrefixes[i]\n\t\t\tif strings.HasPrefix(k, reservedPrefix) {\n\t\t\t\treturn desc, fmt.Errorf("error adding user metadata: metadata key %%v has reserved prefix %%v", k, reservedPrefix)\n\t\t\t}\n\t\t}\n' % cond
+def idx_search(guard):
+    return '\t\tif i := slices.IndexFunc(reservedAnnotationPrefixes[:], func(p string) bool { return strings.HasPrefix(k, p) }); %s {\n\t\t\treturn desc, fmt.Errorf("error adding user metadata: metadata key %%v has reserved prefix %%v", k, reservedAnnotationPrefixes[i])\n\t\t}\n' % guard
+SL = [(N, '\t"strings"\n', '\t"slices"\n\t"strings"\n')]
+PM = 'plugin/manager_unix.go'
+PN_OLD = '\tpluginName, found := strings.CutPrefix(fileName, plugin.BinaryPrefix)\n\tif !found || pluginName == "" {\n'
+def pn(k, n):
+    return '\tif !strings.HasPrefix(fileName, "notation-") {\n\t\treturn "", fmt.Errorf("invalid plugin executable file name %%s", fileName)\n\t}\n\tpluginName, found := fileName[%d:], true\n\t_ = plugin.BinaryPrefix\n\tif !found || pluginName == "" {\n' % k
+VARIANTS += [
+ dict(name='benign-index-loop-counting', file=N, expect='silent', find=LOOP_OLD, replace=idx_loop('i < len(reservedAnnotationPrefixes)')),
+ dict(name='index-loop-one-past-the-end', file=N, expect='flagged(index/ngo.addUserMetadataToDescriptor)', find=LOOP_OLD, replace=idx_loop('i <= len(reservedAnnotationPrefixes)')),
+ dict(name='benign-index-search-guarded', file=N, expect='silent', find=LOOP_OLD, replace=idx_search('i >= 0'), edits=SL),
+ dict(name='benign-index-search-guarded-ne', file=N, expect='silent', find=LOOP_OLD, replace=idx_search('i != -1'), edits=SL),
+ dict(name='index-search-unguarded', file=N, expect='flagged(index/ngo.addUserMetadataToDescriptor)', find=LOOP_OLD, replace=idx_search('i != 0'), edits=SL),
+ dict(name='index-search-guard-too-weak', file=N, expect='flagged(index/ngo.addUserMetadataToDescriptor)', find=LOOP_OLD, replace=idx_search('i >= -1'), edits=SL),
+ dict(name='benign-slice-after-prefix', file=PM, expect='silent', find=PN_OLD, replace=pn(9, 9)),
+ dict(name='slice-beyond-prefix', file=PM, expect='flagged(slice/ngo/plugin.parsePluginName)', find=PN_OLD, replace=pn(10, 9)),
+]
+
+# a nilable verifier field dereferenced in an unexported helper: fine when every caller established it, not otherwise
+SK_OLD = '\tif v.ociTrustPolicyDoc == nil {\n\t\treturn false, nil, errors.New("ociTrustPolicyDoc is nil")\n\t}\n\ttrustPolicy, err := v.ociTrustPolicyDoc.GetApplicableTrustPolicy(opts.ArtifactReference)\n\tif err != nil {\n\t\treturn false, nil,'
+SK_HELPER = (V, 'func verifyX509TrustedIdentities(', 'func (v *verifier) statementFor(ref string) (*trustpolicy.OCITrustPolicy, error) {\n\treturn v.ociTrustPolicyDoc.GetApplicableTrustPolicy(ref)\n}\n\nfunc verifyX509TrustedIdentities(')
+VARIANTS += [
+ dict(name='benign-nilable-field-in-helper-caller-guards', file=V, expect='silent', find=SK_OLD,
+      replace='\tif v.ociTrustPolicyDoc == nil {\n\t\treturn false, nil, errors.New("ociTrustPolicyDoc is nil")\n\t}\n\ttrustPolicy, err := v.statementFor(opts.ArtifactReference)\n\tif err != nil {\n\t\treturn false, nil,', edits=[SK_HELPER]),
+ dict(name='nilable-field-in-helper-caller-does-not-guard', file=V, expect='flagged(nilable/verifier-field/(*ngo/verifier.verifier).statementFor)', find=SK_OLD,
+      replace='\ttrustPolicy, err := v.statementFor(opts.ArtifactReference)\n\tif err != nil {\n\t\treturn false, nil,', edits=[SK_HELPER]),
+]
+
+# the fetch moved into an unexported helper: the cap is an obligation of every caller of the helper
+FV_HELPER = (R, '// signatureReferrers returns referrer nodes', 'func fetchVerified(ctx context.Context, fetcher content.Fetcher, desc ocispec.Descriptor) ([]byte, error) {\n\trc, err := fetcher.Fetch(ctx, desc)\n\tif err != nil {\n\t\treturn nil, err\n\t}\n\tdefer rc.Close()\n\treturn content.ReadAll(rc, desc)\n}\n\n// signatureReferrers returns referrer nodes')
+FV_EDITS = [FV_HELPER,
+  (R, '\tsigBlob, err := content.FetchAll(ctx, fetcher, sigBlobDesc)', '\tsigBlob, err := fetchVerified(ctx, fetcher, sigBlobDesc)'),
+  (R, '\tmanifestJSON, err := content.FetchAll(ctx, fetcher, sigManifestDesc)', '\tmanifestJSON, err := fetchVerified(ctx, fetcher, sigManifestDesc)')]
+VARIANTS += [
+ dict(name='benign-fetch-in-helper-callers-cap', expect='silent', edits=FV_EDITS),
+ dict(name='fetch-in-helper-one-caller-without-cap', expect='flagged(size-cap/(*ngo/registry.repositoryClient).getSignatureBlobDesc)',
+      edits=FV_EDITS + [(R, '\tif sigManifestDesc.Size > maxManifestSizeLimit {\n\t\treturn ocispec.Descriptor{}, fmt.Errorf("signature manifest too large: %d bytes", sigManifestDesc.Size)\n\t}\n', '')]),
+]
